@@ -27,19 +27,20 @@ CONFIGS = {
 BASE_FLAGS = ["-std=gnu11", "-UNDEBUG", "-O0", "-Xclang", "-disable-O0-optnone", "-g",
               "-fno-discard-value-names", "-Wno-everything"]
 
-# Normalisation before analysis: in these units every file-local (static) function that is defined in the unit's own
-# source file, has no loop, and is NOT listed here is inlined into its callers (opt always-inline).  The listed names are
+# Normalisation before analysis: in these units every file-local (static, including static inline functions from
+# headers) function that has no loop and is NOT listed here is inlined into its callers (opt always-inline).  The listed names are
 # the static functions of the tree the rules were written against (anchors the rules name); anything else is a helper a
 # later refactoring extracted, and the rules should see through it.  Inlining preserves semantics, so a verdict on the
 # normalised unit is a verdict on the unit.  Helpers with loops stay functions (rules summarise them or decline).
 INLINE_KEEP = {
     "librfn/bintree.c": ["bintree_traverse_in_order_depth", "bintree_traverse_post_order_depth", "bintree_traverse_pre_order_depth",
                          "in_order_iterator", "list_left_iterator", "list_right_iterator", "post_order_iterator",
-                         "pre_order_iterator", "visualize_node", "graph_node", "is_visited", "escape"],
+                         "pre_order_iterator", "visualize_node", "graph_node", "is_visited", "escape", "bintree_next"],
     "librfn/console.c": ["console_fibre_endpoint", "do_prompt", "do_tokenize", "find_command", "console_echo", "console_help",
                          "console_unknown"],
     "librfn/fibre.c": ["handle_atomic_runq", "update_current_state", "handle_timerq", "get_next_task", "get_next_wakeup",
-                       "make_runnable", "add_taint", "duetime_cmp"],
+                       "make_runnable", "add_taint", "duetime_cmp",
+                       "list_empty", "messageq_empty", "list_peek"],          # header inlines the fibre rules look for
     "librfn/hex.c": ["hexchar", "nibble"],
     "librfn/mlog.c": ["get_line"],
     "librfn/wavheader.c": ["format_tostring"],
@@ -132,8 +133,7 @@ def compile_unit(path, config="default", extra=(), repo=None, mem2reg=True, inli
         m0 = ir.Module(base_js, unit=path, config=config)
         bn = os.path.basename(path)
         victims = sorted(f.name for f in m0.defined_functions()
-                         if f.internal and f.name not in inline_except and f.loc and f.loc.split(":")[0].endswith(bn)
-                         and not f.loops_headers())
+                         if f.internal and f.name not in inline_except and not f.loops_headers())
         if not victims:
             return base_js
         tag = hashlib.sha1((path + "|" + config + "|" + " ".join(extra) + "|inl|" + ",".join(victims)).encode()).hexdigest()[:12]
